@@ -181,7 +181,7 @@ func randomBuild(pattern string, build func(string) (Cgroup, error)) (Cgroup, er
 	for {
 		name := prefix + nextRandom() + suffix
 		cg, err := build(name)
-		if err == nil {
+		if err == nil && !cg.Existing() {
 			return cg, nil
 		}
 		if errors.Is(err, os.ErrExist) || (cg != nil && cg.Existing()) {
